@@ -340,7 +340,7 @@ def judge_hang(pid, quiet_s=8.0):
 def run(argv, stdin=None, env=None, cwd=None, timeout=120, stdout_path=None,
         feed=None, drain=None, preexec=None, merge_env=True, hard_factor=3, pass_fds=(), stderr_path=None):
     """Run a child.  stdin: bytes | path(str) | None(/dev/null) | int fd.
-    feed: None, or (fragment_sizes list, delay_s) to write stdin through a pipe
+    feed: None, or (fragment_sizes list, delay_s[, [(fraction, pause_s)]]) to write stdin through a pipe
     in fragments.  drain: None, or (chunk, delay_s) to read stdout slowly.
     Returns Res.  A watchdog expiry alone is 'timeout' (inconclusive); it is a
     'deadlock' only with evidence (see judge_hang)."""
@@ -383,17 +383,23 @@ def run(argv, stdin=None, env=None, cwd=None, timeout=120, stdout_path=None,
 
     def feeder():
         data = bytes(stdin)
-        sizes, delay = feed if feed else ([len(data) or 1], 0)
+        sizes, delay = (feed[0], feed[1]) if feed else ([len(data) or 1], 0)
+        # optional third element: [(fraction of the input, seconds)] = the producer goes quiet once at that offset
+        pauses = sorted((int(fr * len(data)), secs) for fr, secs in (feed[2] if feed and len(feed) > 2 else []))
         pos = 0; i = 0
         fd = proc.stdin.fileno()
         try:
             while pos < len(data):
                 n = max(1, sizes[i % len(sizes)]); i += 1
+                if pauses and pos < pauses[0][0] < pos + n:
+                    n = pauses[0][0] - pos
                 chunk = data[pos:pos + n]
                 while chunk:
                     w = os.write(fd, chunk)
                     chunk = chunk[w:]
                 pos += n
+                if pauses and pos >= pauses[0][0]:
+                    time.sleep(pauses.pop(0)[1])
                 if delay:
                     time.sleep(delay)
         except (BrokenPipeError, OSError):
